@@ -71,6 +71,16 @@ class FuncV:
         return f"<func {self.qual}>"
 
 
+class GetterV:
+    """operator.itemgetter(k) / attrgetter("a") / methodcaller("m", ...): a callable that applies that access to its argument"""
+
+    def __init__(self, kind, arg):
+        self.kind, self.arg = kind, arg
+
+    def __repr__(self):
+        return f"<{self.kind}getter {self.arg!r}>"
+
+
 class Frame:
     def __init__(self, node, iterable, elems, kind):
         self.node, self.iterable, self.elems, self.kind = node, iterable, elems, kind
@@ -296,6 +306,8 @@ def wrap(v):
         return F.fn("dtype", v.fmt.atom())
     if isinstance(v, Star):
         return F.fn("star", wrap(v.v))
+    if isinstance(v, GetterV):
+        return F.sym(f"<{v.kind}getter>")
     if isinstance(v, SeqV):
         return F.fn("seqv", wrap(v.elem), wrap(v.count))
     if isinstance(v, PackV):
@@ -372,7 +384,7 @@ class OP4Eval(AutoEvaluator):
         self.on_yield = None
         self.in_try = 0
         self.locals = local_names(fn) if fn is not None else set()
-        self.alts = []              # early returns of undecided arms: (value, input position)
+        self.alts = []              # early returns of undecided arms: (value, input position, test value the return happens under or None)
         self.retval = None
         self.raised = False
 
@@ -515,7 +527,7 @@ class OP4Eval(AutoEvaluator):
         if isinstance(v, BytesV):
             n = const_int(v.n)
             return None if n is None else n > 0
-        if isinstance(v, (FuncV, StructV, BoundV, SliceV, DtypeV, PackV)):
+        if isinstance(v, (FuncV, StructV, BoundV, SliceV, DtypeV, PackV, GetterV)):
             return True
         if isinstance(v, SeqV):
             return self.truth(v.count) if is_rat(v.count) else None
@@ -563,6 +575,21 @@ class OP4Eval(AutoEvaluator):
     def decide(self, test):
         v = self.ev(test)
         return self.truth(v)
+
+    BOOL_CALLS = ("call:bool", "call:isinstance", "call:np.iscomplexobj", "call:np.any", "call:np.all", "call:sp.issparse", "call:callable")
+
+    def is_boolean(self, v):
+        """is the value a Python / numpy bool whatever its truth (a comparison, `not x`, bool(x), a predicate call)?"""
+        if not is_rat(v):
+            return False
+        if sym_name(v) in ("True", "False"):
+            return True
+        u = unfn(v)
+        if u is None:
+            return False
+        if u[0] in ("bool:And", "bool:Or"):
+            return all(self.is_boolean(x) for x in u[1])
+        return u[0].startswith("cmp:") or u[0] == "not" or u[0] in self.BOOL_CALLS
 
     # ------------------------------------------------------------------------------------------------ integer operators
     def _split_pow2(self, a, k, exact=False):
@@ -696,8 +723,19 @@ class OP4Eval(AutoEvaluator):
         if isinstance(op, ast.Mult):
             for x, y in ((a, b), (b, a)):
                 sx = strconst(x) if is_rat(x) else (x.concrete() if isinstance(x, Txt) else None)
-                if sx is not None and const_int(y) is not None:
-                    return F.sym(repr(sx * const_int(y)))
+                ny = const_int(y) if is_rat(y) else None
+                if ny is None and is_rat(y) and (sx is not None or isinstance(x, (tuple, Txt))) and self.is_boolean(y):
+                    # text * flag, table * flag: the flag counts as 0 / 1
+                    r = self.truth(y)
+                    if r is None:
+                        return Unknown(f"sequence repeated by the undecided flag {y!r}")
+                    ny = int(r)
+                if sx is not None and ny is not None:
+                    return F.sym(repr(sx * ny))
+                if isinstance(x, Txt) and ny is not None and 0 <= ny <= 64:
+                    return Txt([p for _ in range(ny) for p in x.p])
+                if isinstance(x, tuple) and ny is not None and 0 <= ny * len(x) <= 256:
+                    return x * ny
         if isinstance(op, ast.Mod):
             ta = as_txt(a)
             if ta is not None:
@@ -1074,6 +1112,12 @@ class OP4Eval(AutoEvaluator):
         if is_unknown(base):
             return base
         ix = self.index_value(sl)
+        return self.subscript_val(base, ix, node, isinstance(sl, ast.List))
+
+    def subscript_val(self, base, ix, node, is_list=False):
+        """base[ix] on values"""
+        if is_unknown(base):
+            return base
         if is_unknown(ix):
             return ix
         if isinstance(base, Txt) or (is_rat(base) and strconst(base) is not None and isinstance(ix, SliceV)):
@@ -1123,6 +1167,13 @@ class OP4Eval(AutoEvaluator):
                         return Unknown("tuple slice bound")
                 return base[slice(*bd)]
             k = const_int(ix) if is_rat(ix) else None
+            if k is None and is_rat(ix) and self.is_boolean(ix):
+                # table[flag]: False / True index a two-entry table as 0 / 1
+                r = self.truth(ix)
+                if r is None:
+                    self.W.undecided.append((node, ix, self.qual))
+                    return Unknown(f"table indexed by the undecided flag {ix!r}")
+                k = int(r)
             if k is not None:
                 try:
                     return base[k]
@@ -1140,6 +1191,8 @@ class OP4Eval(AutoEvaluator):
             if ub is not None and ub[0] == "attr:shape" and is_rat(ix) and const_int(ix) == 0 and ub[1] and is_rat(ub[1][0]):
                 return self.len_of(ub[1][0])          # X.shape[0] is len(X)
             try:
+                if is_list and isinstance(ix, tuple) and all(is_rat(x) for x in ix):
+                    return F.fn("idx", base, F.fn("list", *ix))          # X[[i, j]]: the elements i, j (not the entry X[i, j])
                 return F.fn("idx", base, wrap(ix))
             except Unsupported as e:
                 return Unknown(str(e))
@@ -1212,6 +1265,9 @@ class OP4Eval(AutoEvaluator):
         if isinstance(callee, BoundV):
             pos, kw = self._args(node)
             return self.struct_call(callee.st, callee.which, pos, node)
+        if isinstance(callee, GetterV):
+            pos, kw = self._args(node)
+            return self.call_getter(callee, pos, kw, node)
         if callee is not None and is_unknown(callee):
             self._args(node)
             return callee
@@ -1227,6 +1283,33 @@ class OP4Eval(AutoEvaluator):
         if method is not None:
             return self.method_call(recv, method, pos, kw, node)
         return self.builtin_call(name or "?", pos, kw, node)
+
+    def call_getter(self, g, pos, kw, node):
+        if len(pos) != 1 or kw:
+            return Unknown("call of an operator getter")
+        if g.kind == "item":
+            return self.subscript_val(pos[0], g.arg, node)
+        if g.kind == "attr":
+            return self.attr_of(pos[0], g.arg, node)
+        name, a, k = g.arg
+        return self.method_call(pos[0], name, a, k, node)
+
+    def call_value(self, callee, pos, kw, node):
+        """call of a callable value with evaluated arguments (map / sorted keys / callbacks)"""
+        if isinstance(callee, FuncV):
+            return self.call_func(callee, pos, kw, node)
+        if isinstance(callee, GetterV):
+            return self.call_getter(callee, pos, kw, node)
+        if isinstance(callee, BoundV):
+            return self.struct_call(callee.st, callee.which, pos, node)
+        if is_rat(callee):
+            uc = unfn(callee)
+            if uc is not None and uc[0].startswith("attr:") and len(uc[1]) == 1 and is_rat(uc[1][0]):
+                return self.method_call(uc[1][0], uc[0][5:], pos, kw, node)
+            if sym_name(callee) is not None and sym_name(callee) not in ("None", "True", "False"):
+                return self.builtin_call(sym_name(callee), pos, kw, node)
+            return self.opaque_call("<value>", pos, kw, node, callee=callee)
+        return callee if is_unknown(callee) else Unknown(f"call of {type(callee).__name__}")
 
     def call_func(self, fv, pos, kw, node):
         W = self.W
@@ -1246,7 +1329,7 @@ class OP4Eval(AutoEvaluator):
             self.done = True
             return Unknown(f"{fv.qual} raises")
         v = sub.returns[-1][0] if sub.returns else None
-        for av, apos in sub.alts:
+        for av, apos, _ac in sub.alts:
             if not same_value(av, v) or apos != sub._pos():
                 return Unknown(f"the paths through {fv.qual} return different values")
         return NONE if v is None else v
@@ -1373,6 +1456,15 @@ class OP4Eval(AutoEvaluator):
             return self.next_line(recv)
         if method == "read" and len(pos) == 1 and W.stream is not None:
             return W.stream.read(pos[0])
+        if method == "seek" and W.stream is not None:
+            # seek(n, 1) with n >= 0 skips the next n bytes: the same as a read whose result is dropped
+            whence = pos[1] if len(pos) == 2 else kw.get("whence")
+            rel = whence is not None and is_rat(whence) and (const_int(whence) == 1 or sym_name(whence) in ("os.SEEK_CUR", "io.SEEK_CUR", "SEEK_CUR"))
+            if rel and pos and is_rat(pos[0]) and self.rng(pos[0])[0] is not None and self.rng(pos[0])[0] >= 0:
+                r = W.stream.read(pos[0])
+                return r if is_unknown(r) else F.fn("call:.tell", recv)
+            W.stream.lost = True
+            return Unknown("seek to a position the evaluator does not follow")
         if method in ("encode", "decode") and not pos:
             return recv
         if method == "sum" and not pos:
@@ -1574,6 +1666,35 @@ class OP4Eval(AutoEvaluator):
             if hi is not None and hi <= 0:
                 return -pos[0]
             return F.fn("abs", pos[0])
+        if name == "bool" and n == 1 and not kw:
+            r = self.truth(pos[0])
+            if r is not None:
+                return boolv(r)
+            if is_rat(pos[0]) and self.is_boolean(pos[0]):
+                return pos[0]
+        if name == "enumerate" and 1 <= n <= 2 and isinstance(pos[0], tuple) and set(kw) <= {"start"}:
+            s0 = pos[1] if n == 2 else kw.get("start", F.const(0))
+            if is_rat(s0):
+                return tuple((s0 + k, x) for k, x in enumerate(pos[0]))
+        if name == "zip" and n >= 1 and all(isinstance(x, tuple) for x in pos) and not kw:
+            return tuple(zip(*pos))
+        if name in ("reversed",) and n == 1 and isinstance(pos[0], tuple):
+            return tuple(reversed(pos[0]))
+        if name in ("np.flatnonzero", "numpy.flatnonzero") and n == 1 and is_rat(pos[0]):
+            return F.fn("idx", F.fn("call:np.nonzero", pos[0]), F.const(0))
+        if name == "operator.itemgetter" and n == 1 and not kw:
+            return GetterV("item", pos[0])
+        if name == "operator.attrgetter" and n == 1 and not kw and is_rat(pos[0]) and strconst(pos[0]) is not None:
+            return GetterV("attr", strconst(pos[0]))
+        if name == "operator.methodcaller" and n >= 1 and is_rat(pos[0]) and strconst(pos[0]) is not None:
+            return GetterV("method", (strconst(pos[0]), list(pos[1:]), dict(kw)))
+        if name in ("operator.add", "operator.sub", "operator.mul", "operator.floordiv", "operator.mod", "operator.lshift", "operator.rshift",
+                    "operator.and_", "operator.or_") and n == 2 and not kw:
+            op = {"add": ast.Add, "sub": ast.Sub, "mul": ast.Mult, "floordiv": ast.FloorDiv, "mod": ast.Mod, "lshift": ast.LShift, "rshift": ast.RShift,
+                  "and_": ast.BitAnd, "or_": ast.BitOr}[name.split(".")[1]]()
+            return self.binop_values(op, pos[0], pos[1], node)
+        if name == "map" and n == 2 and isinstance(pos[1], tuple) and not kw:
+            return tuple(self.call_value(pos[0], [x], {}, node) for x in pos[1])
         if name == "divmod" and n == 2 and is_rat(pos[0]) and is_rat(pos[1]):
             q = self._intop(ast.FloorDiv(), pos[0], pos[1])
             r = self._intop(ast.Mod(), pos[0], pos[1])
@@ -1907,7 +2028,10 @@ class OP4Eval(AutoEvaluator):
                         self.env[k] = Unknown(why)
                 self.done, self.loopctl, self.raised = False, c["loopctl"], False
                 del self.returns[pre["nret"]:]
-                self.alts = list(c["alts"]) + [(d["ret"][-1][0] if d["ret"] else None, d["pos"])]
+                cond = None
+                if tv is not None and is_rat(tv):
+                    cond = tv if d is a else negate(tv)
+                self.alts = list(c["alts"]) + [(d["ret"][-1][0] if d["ret"] else None, d["pos"], cond)]
                 if W.stream is not None:
                     W.stream.i = c["pos"][0]
                 W.lines_i = c["pos"][1]
@@ -2061,14 +2185,42 @@ class OP4Eval(AutoEvaluator):
             return
         if isinstance(target, (ast.Tuple, ast.List)):
             n = len(target.elts)
-            if isinstance(v, tuple) and len(v) == n:
+            stars = [k for k, t in enumerate(target.elts) if isinstance(t, ast.Starred)]
+            if isinstance(v, SeqV) and not stars:
+                v = Unknown("unpacking of a sequence of unknown length")
+            if len(stars) == 1 and isinstance(v, tuple):
+                # a, *rest, z = values : the starred name takes what the others leave (a list)
+                k = stars[0]
+                after = n - k - 1
+                if len(v) < n - 1:
+                    why = Bad(f"unpacking {len(v)} values into at least {n - 1} names")
+                    for t in target.elts:
+                        self._assign(t.value if isinstance(t, ast.Starred) else t, why, st)
+                    return
+                for t, x in zip(target.elts[:k], v[:k]):
+                    self._assign(t, x, st)
+                self._assign(target.elts[k].value, tuple(v[k:len(v) - after]), st)
+                for t, x in zip(target.elts[k + 1:], v[len(v) - after:]):
+                    self._assign(t, x, st)
+            elif stars:
+                why = v if is_unknown(v) else Unknown("starred target of a value that is not a tuple")
+                for t in target.elts:
+                    self._assign(t.value if isinstance(t, ast.Starred) else t, why, st)
+            elif isinstance(v, tuple) and len(v) == n:
                 for t, x in zip(target.elts, v):
                     self._assign(t, x, st)
             elif is_rat(v):
                 if self.in_try and (v.is_const() or sym_name(v) in ("True", "False", "None")):
                     raise PyRaise("TypeError")
+                # X[[i, j, ...]] unpacked into as many names: the names are X[i], X[j], ...
+                u = unfn(v)
+                picks = None
+                if u is not None and u[0] == "idx" and len(u[1]) == 2:
+                    ul = unfn(u[1][1])
+                    if ul is not None and ul[0] == "list" and len(ul[1]) == n:
+                        picks = [F.fn("idx", u[1][0], x) for x in ul[1]]
                 for k, t in enumerate(target.elts):
-                    self._assign(t, F.fn("idx", v, F.const(k)), st)
+                    self._assign(t, picks[k] if picks is not None else F.fn("idx", v, F.const(k)), st)
             else:
                 why = v if is_unknown(v) else (Bad(f"unpacking {len(v)} values into {n} names") if isinstance(v, tuple) else Unknown("tuple unpacking of a non-tuple"))
                 for t in target.elts:
